@@ -343,7 +343,7 @@ OBLIGATIONS.append(M("C16", "c16_interp_tx_total", {"q": "interp_tx_total"}, ["I
 OBLIGATIONS.append(M("C14", "c14_if_branch", {"q": "if_branch"}, ["Interpreter::match_script_bit (ScriptBit::If)", "ScriptStack::pop_bool", "Vec::splice"],
                      "OP_IF and OP_NOTIF, with and without an else branch, stack depth 0..2, condition item of 0, 1, 2 or 5 bytes with symbolic content (every truthiness class incl. negative zero): the spliced-in branch, the consumed item, the untouched remainder", cost=1))
 OBLIGATIONS.append(M("C16", "c16_step_vs_run", {"q": "step_vs_run"}, ["Interpreter::run_impl", "Interpreter::next_impl", "Interpreter::match_script_bit", "Interpreter::match_opcode"],
-                     "ten short scripts (arithmetic, stack, alt stack, VERIFY, IF/ELSE, NOTIF, nested IF, too many DROPs, empty) on two symbolic one-byte operands: run_impl and repeated next_impl executed on the same path end in the same outcome and stacks", cost=1))
+                     "twelve short scripts (arithmetic, stack, alt stack, VERIFY, IF/ELSE, NOTIF, nested IF, too many DROPs, empty, OP_RETURN followed by more elements at top level and inside an executed branch) on two symbolic one-byte operands: run_impl and repeated next_impl executed on the same path end in the same outcome and stacks; the step sequence ends after a failing step; nothing runs after an executed OP_RETURN", cost=1))
 
 
 def for_property(pid):
